@@ -929,3 +929,178 @@ func FileFamily(maxDev int) []FileParams {
 	}
 	return out
 }
+
+// ---------------------------------------------------------------------------
+// Top-level output materialisation family (C13)
+
+type OutsParams struct {
+	Outs    []string // FILEW outputs returned by the top-level pipeline
+	OutName bool     // explicit output names on the pipeline's file outputs
+	Size    int
+	Mode    int  // 0 files, 1 nulls, 2 missing, 3 symlinks, 4 outside the pipestance
+	ProdMap bool // mapped producer: every output becomes an array
+	TopMap  bool // the top-level call itself is mapped
+	Wrap    bool // outputs pass through a sub-pipeline
+	// Collide makes two outputs derive the same name under outs/:
+	// 1 an explicit name equal to another output's default name, 2 two equal
+	// explicit names, 3 the same inside a struct-typed output, 4 an explicit
+	// file name equal to the directory name of a collection output, 5 as 1
+	// with the explicitly named output declared first.
+	Collide int `json:",omitempty"`
+}
+
+func (d OutsParams) String() string {
+	c := ""
+	if d.Collide != 0 {
+		c = fmt.Sprintf(" collide=%d", d.Collide)
+	}
+	return fmt.Sprintf("outs{outs=%s outname=%v size=%d mode=%d prodmap=%v topmap=%v wrap=%v%s}",
+		strings.Join(d.Outs, "+"), d.OutName, d.Size, d.Mode, d.ProdMap, d.TopMap, d.Wrap, c)
+}
+
+func OutsFlow(d OutsParams) *Program {
+	p := baseProgram()
+	p.Desc = d.String()
+	p.Structs = append(p.Structs, &StructDecl{Name: "FS", Fields: []Param{{T: IntT, Name: "x"}, {T: FiletypeT("txt"), Name: "f"}}})
+	outs := append(filewOuts(), Param{T: IntT, Name: "num"}, Param{T: ArrayOf(ArrayOf(FiletypeT("txt"))), Name: "ff"})
+	prod := &Stage{Name: "FILEW", Fn: "FILEW", Ins: []Param{{T: IntT, Name: "n"}, {T: IntT, Name: "mode"}}, Outs: outs}
+	p.Stages = append(p.Stages, prod)
+	top := &Pipeline{Name: "TOP", Ins: []Param{{T: IntT, Name: "n"}, {T: IntT, Name: "mode"}}}
+	call := &Call{Callee: "FILEW", Binds: []Bind{{"n", Self("n")}, {"mode", Self("mode")}}}
+	if d.ProdMap {
+		call.Map = true
+		call.Binds[0].E = SplitE(Lit(Arr(Int(int64(d.Size)), Int(int64(d.Size)+1))))
+	}
+	src := "FILEW"
+	if d.Wrap {
+		sub := &Pipeline{Name: "SUB", Ins: []Param{{T: IntT, Name: "n"}, {T: IntT, Name: "mode"}}, Calls: []*Call{call}}
+		for _, o := range d.Outs {
+			for _, op := range outs {
+				if op.Name == o {
+					t := op.T
+					if d.ProdMap {
+						t = ArrayOf(t)
+					}
+					if !t.Valid() {
+						return nil
+					}
+					sub.Outs = append(sub.Outs, Param{T: t, Name: o})
+					sub.Ret = append(sub.Ret, Bind{o, Ref("FILEW", o)})
+				}
+			}
+		}
+		p.Pipelines = append(p.Pipelines, sub)
+		top.Calls = append(top.Calls, &Call{Callee: "SUB", Binds: []Bind{{"n", Self("n")}, {"mode", Self("mode")}}})
+		src = "SUB"
+	} else {
+		top.Calls = append(top.Calls, call)
+	}
+	for _, o := range d.Outs {
+		found := false
+		for _, op := range outs {
+			if op.Name == o {
+				found = true
+				t := op.T
+				if d.ProdMap {
+					t = ArrayOf(t)
+				}
+				if !t.Valid() {
+					return nil
+				}
+				param := Param{T: t, Name: "r_" + o}
+				if d.OutName && (t.K == TFiletype || t.K == TFile || t.K == TPath) {
+					param.OutName = "named_" + o + ".out"
+				}
+				top.Outs = append(top.Outs, param)
+				top.Ret = append(top.Ret, Bind{"r_" + o, Ref(src, o)})
+			}
+		}
+		if !found {
+			return nil
+		}
+	}
+	if d.Collide != 0 {
+		if d.ProdMap {
+			return nil
+		}
+		// the first two outputs of the set must be f and g
+		if len(d.Outs) < 2 || d.Outs[0] != "f" || d.Outs[1] != "g" {
+			return nil
+		}
+		switch d.Collide {
+		case 1:
+			top.Outs[0].OutName = ""
+			top.Outs[1].OutName = "r_f.txt"
+		case 2:
+			top.Outs[0].OutName = "same.out"
+			top.Outs[1].OutName = "same.out"
+		case 3:
+			p.Structs = append(p.Structs, &StructDecl{Name: "T2", Fields: []Param{
+				{T: FiletypeT("txt"), Name: "a"}, {T: FileT, Name: "b", OutName: "a.txt"}}})
+			top.Outs = append(top.Outs, Param{T: StructT("T2"), Name: "r_t"})
+			top.Ret = append(top.Ret, Bind{"r_t", StructE([]string{"a", "b"}, []*Exp{Ref(src, "f"), Ref(src, "g")})})
+			top.Outs, top.Ret = top.Outs[2:], top.Ret[2:]
+		case 4:
+			if len(d.Outs) < 3 || d.Outs[2] != "fs" {
+				return nil
+			}
+			top.Outs[1].OutName = "r_fs"
+		case 5:
+			top.Outs[0].OutName = "r_g"
+			top.Outs[1].OutName = ""
+		}
+	}
+	p.Pipelines = append(p.Pipelines, top)
+	p.Top = &Call{Callee: "TOP", Binds: []Bind{{"n", Lit(Int(int64(d.Size)))}, {"mode", Lit(Int(int64(d.Mode)))}}}
+	if d.TopMap {
+		p.Top.Map = true
+		p.Top.Binds[0].E = SplitE(Lit(Arr(Int(int64(d.Size)), Int(int64(d.Size)+1))))
+	}
+	FixUnused(p)
+	return p
+}
+
+func OutsFamily(thorough bool) []OutsParams {
+	names := []string{"f", "g", "fs", "fm", "s", "ss", "ms", "sp", "um", "d", "num", "ff"}
+	var sets [][]string
+	for _, n := range names {
+		sets = append(sets, []string{n})
+	}
+	sets = append(sets, names, []string{"f", "s", "num"}, []string{"fs", "fm", "ss", "ms"})
+	sizes := []int{2, 0, 1, 11}
+	var out []OutsParams
+	for _, set := range sets {
+		for _, size := range sizes {
+			for mode := 0; mode <= 4; mode++ {
+				for _, on := range []bool{false, true} {
+					for _, pm := range []bool{false, true} {
+						for _, tm := range []bool{false, true} {
+							for _, wr := range []bool{false, true} {
+								dev := 0
+								for _, b := range []bool{size != 2, mode != 0, on, pm, tm, wr} {
+									if b {
+										dev++
+									}
+								}
+								if dev > 2 && !thorough {
+									continue
+								}
+								out = append(out, OutsParams{Outs: set, OutName: on, Size: size, Mode: mode, ProdMap: pm, TopMap: tm, Wrap: wr})
+							}
+						}
+					}
+				}
+			}
+		}
+	}
+	for c := 1; c <= 5; c++ {
+		for _, tm := range []bool{false, true} {
+			for _, wr := range []bool{false, true} {
+				for _, mode := range []int{0, 3} {
+					out = append(out, OutsParams{Outs: []string{"f", "g", "fs"}, Size: 2, Mode: mode, TopMap: tm, Wrap: wr, Collide: c})
+				}
+			}
+		}
+	}
+	return out
+}
